@@ -24,6 +24,8 @@ CHECKS = {
          "response and event sizes in a window around the limit (and 0, 1, limit/2) at every position of 2-6 invocation sequences; decides exactness of the limit in both directions, the 413/ResponseSizeTooLarge pair and survival without reset; sampled positions and mixes"),
  "C10": ("exploration", "3 C10", "full-stack deterministic simulation: extra callers injected at six phases of an in-flight invocation including lock-site holds; interval and outcome oracle",
          "seeded search over the arrival of 1-2 extra callers during init, runtime work, extension tail, timeout reset, failure reset and inside lock windows of the first caller's own path; decides pairwise disjointness of in-flight intervals, immediate 4xx refusal, unchanged outcomes of the planned invocations and that the emulator survives; sampled"),
+ "C02": ("exploration", "3 C02", "full-stack deterministic simulation: adversarial submissions over invocation histories and zombie requests held at lock sites across resets; reference-register oracle",
+         "seeded search over histories (ok/error/timeout/exit) with stale, unknown, empty and duplicate submissions, and over zombie requests of a dying runtime held at 10 lock sites of validator, handlers, state machine and interop server while reset, reservation, dispatch and response of later invocations proceed; decides accept-iff-in-flight-once, bodies delivered to callers, and that the legitimate runtime is never refused; sampled; two zombie-request defects are recorded as known findings"),
 }
 
 NA = [
